@@ -44,6 +44,8 @@ var emptyBuf [0]byte
 type BinaryProtocol struct {
 	Buf  []byte
 	Read int
+	// borrowed is set by NewBinaryProtol(buf): Buf is the caller's memory, not the pool's
+	borrowed bool
 }
 
 var (
@@ -115,6 +117,7 @@ func (p *BinaryProtocol) Left() int {
 func NewBinaryProtol(buf []byte) *BinaryProtocol {
 	bp := bpPool.Get().(*BinaryProtocol)
 	bp.Buf = buf
+	bp.borrowed = true
 	return bp
 }
 
@@ -124,11 +127,15 @@ func NewBinaryProtocolBuffer() *BinaryProtocol {
 }
 
 func FreeBinaryProtocol(bp *BinaryProtocol) {
-	bp.Reset()
-	bpPool.Put(bp)
+	bp.Recycle()
 }
 
 func (p *BinaryProtocol) Recycle() {
+	if p.borrowed {
+		// Buf belongs to the caller of NewBinaryProtol(buf): it must not enter the pool
+		p.Buf = nil
+		p.borrowed = false
+	}
 	p.Reset()
 	bpPool.Put(p)
 }
